@@ -98,9 +98,10 @@ class JsonUtil:
             # str, e.g. in the members of an enum that derives from str
             return str.__str__(value)
         elif isinstance(value, int):
-            return int(value)
+            # Likewise, ignore __int__ and __float__ overrides
+            return int.__int__(value)
         elif isinstance(value, float):
-            return float(value)
+            return float.__float__(value)
         else:
             raise TypeError('The value is not a JSON value')
 
